@@ -4,7 +4,7 @@
 # Results (evidence, replays) go to /tmp/vh-alt/root, never to /verif.
 set -e
 TREE=$(realpath "$1"); ID=$2; TIER=${3:-quick}; shift; shift; shift || true
-ALT=/tmp/vh-alt
+ALT=${VH_ALT:-/tmp/vh-alt}
 mkdir -p $ALT/root
 rsync -a --delete --exclude target /verif/harness/ $ALT/harness/
 sed -i "s#/repo/#$TREE/#g" $ALT/harness/Cargo.toml
